@@ -173,7 +173,7 @@ def print_assumptions(pid, names):
             res[name] = []
         else:
             axs = re.findall(r"^([A-Za-z_][A-Za-z0-9_.']*)\s*:", body, flags=re.M)
-            res[name] = axs
+            res[name] = [a for a in axs if a != "Axioms"]   # "Axioms:" is the header line of the listing
     return res
 
 
